@@ -134,22 +134,38 @@ def groupCbs (m : Machine) (ev : EventId) (tr : Transn) : Phase → List CbId
 
 def actCtx (t : Trigger) (tr : Transn) : Ctx := { t := t, src := some tr.source, tgt := tr.target }
 
+theorem activatePre_lift (L : Lift R A HR h) (m : Machine) (t : Trigger) (tr : Transn)
+    (ok : ∀ ph, ph ≠ .enter → ph ≠ .after → ∀ cb ∈ groupCbs m t.event tr ph, EntryOk A HR (actCtx t tr) ph cb) :
+    Resp R (activatePre h m t tr) := by
+  unfold activatePre
+  refine L.bind (runGroup_lift L m _ _ _ (ok .validators (by decide) (by decide))) fun _ => ?_
+  refine L.bind (runConds_lift L m _ _ fun p hp =>
+    ok .cond (by decide) (by decide) p.1 (List.mem_map_of_mem hp)) fun okc => ?_
+  split
+  · exact L.pure _
+  refine L.bind (runGroup_lift L m _ _ _ (ok .before (by decide) (by decide))) fun _ => ?_
+  refine L.bind (runGroup_lift L m _ _ _ (ok .exit (by decide) (by decide))) fun _ => ?_
+  refine L.bind (runGroup_lift L m _ _ _ (ok .on (by decide) (by decide))) fun _ => ?_
+  exact L.pure _
+
+theorem activatePost_lift (L : Lift R A HR h) (m : Machine) (t : Trigger) (tr : Transn)
+    (ok : ∀ ph, (ph = .enter ∨ ph = .after) → ∀ cb ∈ groupCbs m t.event tr ph, EntryOk A HR (actCtx t tr) ph cb)
+    (hset : Resp R (setState t (stateVal m tr.target))) : Resp R (activatePost h m t tr) := by
+  unfold activatePost
+  refine L.bind hset fun _ => ?_
+  refine L.bind (runGroup_lift L m _ _ _ (ok .enter (Or.inl rfl))) fun _ => ?_
+  refine L.bind (runGroup_lift L m _ _ _ (ok .after (Or.inr rfl))) fun _ => ?_
+  exact L.pure _
+
 /-- `activate` preserves `R` when the entries of its groups are allowed and so is the assignment -/
 theorem activate_lift (L : Lift R A HR h) (m : Machine) (t : Trigger) (tr : Transn)
     (ok : ∀ ph, ∀ cb ∈ groupCbs m t.event tr ph, EntryOk A HR (actCtx t tr) ph cb)
     (hset : Resp R (setState t (stateVal m tr.target))) : Resp R (activate h m t tr) := by
   unfold activate
-  refine L.bind (runGroup_lift L m _ _ _ (ok .validators)) fun _ => ?_
-  refine L.bind (runConds_lift L m _ _ fun p hp => ok .cond p.1 (List.mem_map_of_mem hp)) fun okc => ?_
+  refine L.bind (activatePre_lift L m t tr fun ph _ _ => ok ph) fun r => ?_
   split
   · exact L.pure _
-  refine L.bind (runGroup_lift L m _ _ _ (ok .before)) fun _ => ?_
-  refine L.bind (runGroup_lift L m _ _ _ (ok .exit)) fun _ => ?_
-  refine L.bind (runGroup_lift L m _ _ _ (ok .on)) fun _ => ?_
-  refine L.bind hset fun _ => ?_
-  refine L.bind (runGroup_lift L m _ _ _ (ok .enter)) fun _ => ?_
-  refine L.bind (runGroup_lift L m _ _ _ (ok .after)) fun _ => ?_
-  exact L.pure _
+  · exact L.bind (activatePost_lift L m t tr (fun ph _ => ok ph) hset) fun _ => L.pure _
 
 theorem tryCands_lift (L : Lift R A HR h) (m : Machine) (t : Trigger) (trs : List Transn)
     (ok : ∀ tr ∈ trs, matchesEv tr t.event = true →
